@@ -631,8 +631,8 @@ func (g *FnGen) applyContract(ci *calleeInfo, args []Term, fvs map[string]SVal, 
 	// postconditions
 	if con != nil {
 		for _, cl := range con.Clauses {
-			if cl.Kind != "ensures" {
-				continue
+			if cl.Kind != "ensures" || strings.Contains(cl.Src, "callresult(") || strings.Contains(cl.Src, "called(") {
+				continue // clauses about the callee's own call sites are not exported to callers
 			}
 			env := &Env{g: g, vars: vars, st: st, old: before, pkg: ci.pkg, results: rvals, rnames: ci.rnames}
 			g.assume(reach, g.evalBool(env, cl))
